@@ -675,8 +675,40 @@ def run(prog, rep, tier):
     rep.rule('LOOP-carried-flag', 'a flag set under a test inside a loop body and read there is '
              're-initialised per iteration')
     check_carried_flags(prog, rep, ['tenpy/models/model.py', 'tenpy/networks/terms.py'])
+    from ..flow import check_mixed_accumulation
+    rep.rule('ACCUM-mixed', 'a container that accumulates contributions in a loop is not also '
+             'overwritten there')
+    check_mixed_accumulation(prog, rep, ['tenpy/models/model.py', 'tenpy/networks/terms.py', 'tenpy/algorithms/exact_diag.py'])
+    rep.rule('INDEX-wrap', 'mps2lat_idx receives the un-reduced MPS index')
+    if check_index_wrap(prog, rep) < 5:
+        raise AnalysisError('INDEX-wrap: calls of mps2lat_idx not found')
     return rep.finish(
         level='other',
         explanation='plus_hc / explicit_plus_hc protocol decided for %d sibling add_* methods of '
         'CouplingModel, flag handling of the representation converters, term-class interface and '
         'merge-key completeness, on the current source.' % n)
+
+
+def check_index_wrap(prog, rep):
+    """INDEX-wrap: Lattice.mps2lat_idx derives the unit-cell shift x_0 from an MPS index outside
+    [0, N_sites); a caller that reduces the index modulo the number of sites first (as is right
+    for looking up the Site object) throws that shift away: a term crossing the unit-cell boundary
+    lands inside the first cell."""
+    n = 0
+    for mod in prog.all_modules():
+        for q, f in mod.functions.items():
+            for c in body_nodes(f):
+                if isinstance(c, ast.Call) and isinstance(c.func, ast.Attribute) and \
+                        c.func.attr == 'mps2lat_idx' and c.args:
+                    n += 1
+                    a = c.args[0]
+                    wrapped = isinstance(a, ast.BinOp) and isinstance(a.op, ast.Mod)
+                    rep.instance('INDEX-wrap', {'function': q, 'call': unparse(c)[:60],
+                                                'argument_reduced': wrapped})
+                    if wrapped:
+                        rep.violation('INDEX-wrap', mod, q, 'wrapped:' + unparse(a)[:30],
+                                      '`%s`: the index is reduced modulo the unit cell before '
+                                      'mps2lat_idx can turn its excess into the shift of x_0: '
+                                      'operators in neighbouring unit cells are mapped into the '
+                                      'first one' % unparse(c)[:60], c.lineno)
+    return n
